@@ -40,6 +40,7 @@ type vHBase struct {
 	regs        []hrpc.RegionInfo
 	open        []*vSrvScanner // scanners currently open on the server
 	nextID      uint64
+	cellsOut    int // cells handed to the client so far
 	requests    int
 	failAt      int // the request with this ordinal fails with a non-retryable error (0 = never)
 	opened      int
@@ -201,6 +202,7 @@ func (h *vHBase) SendRPC(rpc hrpc.Call) (proto.Message, error) {
 		for c := 0; c < take; c++ {
 			r.Cell = append(r.Cell, &pb.Cell{Row: row.key, Qualifier: []byte{byte('a' + s.cellOff + c)}})
 		}
+		h.cellsOut += take
 		resp.Results = append(resp.Results, r)
 		if partial {
 			s.cellOff += take
@@ -255,7 +257,9 @@ func vCluster() *vHBase {
 	var prev []byte
 	for i := 0; i < nrows; i++ {
 		var k []byte
-		if kl := verifParam("KEYL"); kl == 1 {
+		if vZeroKeys {
+			k = append([]byte{verifU8()}, make([]byte, verifChoose(3))...)
+		} else if kl := verifParam("KEYL"); kl == 1 {
 			k = verifBytesN(1)
 		} else {
 			k = verifBytes(kl)
@@ -276,7 +280,11 @@ func vCluster() *vHBase {
 	for i := 0; i < nreg; i++ {
 		var stop []byte
 		if i < nreg-1 {
-			stop = verifBytesN(1)
+			if vZeroKeys {
+				stop = append([]byte{verifU8()}, make([]byte, verifChoose(3))...)
+			} else {
+				stop = verifBytesN(1)
+			}
 			verifAssume(bytes.Compare(start, stop) < 0)
 			h.bounds = append(h.bounds, append([]byte{}, stop...))
 		}
@@ -318,6 +326,16 @@ func vNewScan(ctx context.Context, start, stop []byte, reversed, partials bool) 
 		panic(err)
 	}
 	return s
+}
+
+// vZeroKeys: row keys and region boundaries are one arbitrary byte followed by 0..2 zero bytes
+// (the neighbourhood in which "the closest row before this key" is computed for reversed scans).
+var vZeroKeys bool
+
+// VerifScanZeroKeys is VerifScan over such keys.
+func VerifScanZeroKeys() {
+	vZeroKeys = true
+	VerifScan()
 }
 
 // vScannerIDsFromZero: the model server numbers its region scanners 0, 1, 2, ... instead of
@@ -401,6 +419,7 @@ func VerifScanEndings() {
 	}
 	errs := 0
 	eof := false
+	cellsIn := 0 // cells the scanner has returned to its caller
 	for i := 0; i < 8 && !eof; i++ {
 		if i == at && ending == 0 {
 			verifAssert(sc.Close() == nil, "Close succeeds")
@@ -411,6 +430,9 @@ func VerifScanEndings() {
 			verifReach("cancelled")
 		}
 		r, err := sc.Next()
+		if r != nil {
+			cellsIn += len(r.Cells)
+		}
 		switch {
 		case err == io.EOF:
 			eof = true
@@ -420,6 +442,12 @@ func VerifScanEndings() {
 			verifAssert(errs == 1, "an error or a cancellation is reported once, end-of-scan from then on")
 			if ending == 1 || ending == 4 {
 				verifAssert(err == vErrApp, "the request's error is returned unchanged")
+				// a request is made only when nothing complete is buffered: whatever the server has
+				// delivered and the caller has not seen yet is the row being assembled
+				verifAssert(cellsIn == h.cellsOut, "a request's error comes together with the part of the row already assembled")
+				if r != nil {
+					verifReach("error-with-partial-row")
+				}
 				verifReach("failed")
 				if ending == 4 {
 					cancel()
